@@ -99,3 +99,72 @@ Qed.
 Lemma parse_fuel_enough len pool0 pool :
   (pool <= pool0 + 4 * len + 2)%nat -> (2 * pool <= parse_fuel (len + pool0))%nat.
 Proof. unfold parse_fuel. lia. Qed.
+
+(** ---- the last two passes ---- *)
+(** resolveMethodCalls / connectNonNamedObjArgs from the root with at least twice as much fuel as the pool has slots return; the
+    measure (ParserTotalConn.v: PO2 / PL2) also counts the siblings that follow the object, which attachSiblingsAsArgs(useParent) may
+    take - none at the root *)
+Lemma pool_len_reloc (t t' : T) g g' S : R t g -> R t' g' -> reloc g g' S -> length (t_pool t') = length (t_pool t).
+Proof. intros HR HR' Rl. rewrite <- (R_len _ _ HR), <- (R_len _ _ HR'). apply (rl_len _ _ _ Rl). Qed.
+
+Theorem resolveMethodCalls_returns : forall fuel s g,
+  R (p_tree s) g -> info_valid (p_tree s) -> pool_ok (p_tables s) (p_tree s) -> typed (p_tree s) ->
+  glive g 0 -> groot g 0 -> (2 * length (t_pool (p_tree s)) <= fuel)%nat ->
+  match resolveMethodCalls fuel 0 s with
+  | Ok (_, s') => exists g', R (p_tree s') g' /\ info_valid (p_tree s') /\ pool_ok (p_tables s') (p_tree s') /\ typed (p_tree s') /\
+      glive g' 0 /\ groot g' 0 /\ length (t_pool (p_tree s')) = length (t_pool (p_tree s))
+  | Panic => False
+  | OutOfFuel => False
+  end.
+Proof.
+  intros fuel s g HR Hi Hp Hty H0 Hroot Hf.
+  pose proof (proj1 (calls_all KT KT_move KT_upd fuel) 0 s g None [] [] (mkTI _ _ HR Hi Hp) Hty H0 H0 (conj Hroot eq_refl) I) as W. unfold wp in W.
+  destruct (resolveMethodCalls fuel 0 s) as [[r s']| |]; auto.
+  - destruct W as (g' & m2' & ([A B C] & Hrel & _ & Hroots & D & _) & _ & _). exists g'. repeat (split; [assumption|]).
+    split; [apply (reloc_glive _ _ _ 0 Hrel); exact H0|]. split; [apply Hroots; exact Hroot|exact (pool_len_reloc _ _ _ _ _ HR A Hrel)].
+  - destruct (sz_bounded _ _ HR 0 H0) as (n & Hn & Hb). specialize (W n Hn). cbn [length] in W. lia.
+Qed.
+
+Theorem connectNonNamedObjArgs_returns : forall fuel s g,
+  R (p_tree s) g -> info_valid (p_tree s) -> pool_ok (p_tables s) (p_tree s) ->
+  glive g 0 -> groot g 0 -> (2 * length (t_pool (p_tree s)) <= fuel)%nat ->
+  match connectNonNamedObjArgs fuel 0 s with
+  | Ok (_, s') => exists g', R (p_tree s') g' /\ info_valid (p_tree s') /\ pool_ok (p_tables s') (p_tree s')
+  | Panic => False
+  | OutOfFuel => False
+  end.
+Proof.
+  intros fuel s g HR Hi Hp H0 Hroot Hf.
+  pose proof (proj1 (nonNamed_all KT KT_move fuel) 0 s g None [] [] (mkTI _ _ HR Hi Hp) H0 (conj Hroot eq_refl) I) as W. unfold wp in W.
+  destruct (connectNonNamedObjArgs fuel 0 s) as [[r s']| |]; auto.
+  - destruct W as (g' & m2' & ([A B C] & _) & _). exists g'. auto.
+  - destruct (sz_bounded _ _ HR 0 H0) as (n & Hn & Hb). specialize (W n Hn). cbn [length] in W. lia.
+Qed.
+
+(** the two passes as ParseAML chains them *)
+Definition parse_tail2 (f5 f6 : nat) : M bool :=
+  mlet r5 <~ resolveMethodCalls f5 0 ;;
+  if negb (pres_eqb r5 ROk) then ret false else
+  mlet r6 <~ connectNonNamedObjArgs f6 0 ;;
+  if negb (pres_eqb r6 ROk) then ret false else
+  ret true.
+
+Theorem tail2_returns : forall f5 f6 s g,
+  R (p_tree s) g -> info_valid (p_tree s) -> pool_ok (p_tables s) (p_tree s) -> typed (p_tree s) ->
+  glive g 0 -> groot g 0 ->
+  (2 * length (t_pool (p_tree s)) <= f5)%nat -> (2 * length (t_pool (p_tree s)) <= f6)%nat ->
+  match parse_tail2 f5 f6 s with
+  | Ok (_, s') => exists g', R (p_tree s') g' /\ info_valid (p_tree s') /\ pool_ok (p_tables s') (p_tree s')
+  | Panic => False
+  | OutOfFuel => False
+  end.
+Proof.
+  intros f5 f6 s g HR Hi Hp Hty H0 Hroot Hf5 Hf6.
+  pose proof (resolveMethodCalls_returns f5 s g HR Hi Hp Hty H0 Hroot Hf5) as W5.
+  unfold parse_tail2, bindM. destruct (resolveMethodCalls f5 0 s) as [[r5 s1]| |]; try contradiction.
+  destruct W5 as (g1 & A1 & A2 & A3 & A4 & A5 & A6 & A7).
+  destruct (negb (pres_eqb r5 ROk)); [unfold ret; exists g1; auto|].
+  pose proof (connectNonNamedObjArgs_returns f6 s1 g1 A1 A2 A3 A5 A6) as W6. rewrite A7 in W6. specialize (W6 Hf6).
+  destruct (connectNonNamedObjArgs f6 0 s1) as [[r6 s2]| |]; try contradiction.
+  destruct (negb (pres_eqb r6 ROk)); unfold ret; exact W6.
+Qed.
